@@ -234,13 +234,14 @@ type run struct {
 	tls    *tlsEnv
 	silent atomic.Bool
 
-	cancelCalled atomic.Bool // cancel() has been called
-	cancelIssued atomic.Bool // ... and the library's watcher has finished acting on it
-	helpers      sync.WaitGroup
-	finished     atomic.Bool
-	setsBefore   int
-	setsAtReturn int // read-deadline sets on the transport when the constructor returned
-	actionNote   string
+	cancelCalled  atomic.Bool // cancel() has been called
+	cancelIssued  atomic.Bool // ... and the library's watcher has finished acting on it
+	writesStalled atomic.Bool
+	helpers       sync.WaitGroup
+	finished      atomic.Bool
+	setsBefore    int
+	setsAtReturn  int // read-deadline sets on the transport when the constructor returned
+	actionNote    string
 
 	sess      *xmpp.Session
 	err       error
@@ -351,6 +352,12 @@ func (r *run) execute() {
 		fp.Action = func() {
 			if r.f.Kind == "cancel-silent" {
 				r.silent.Store(true)
+				if r.f.K%2 == 1 && !r.h.TLS {
+					// every other time the peer has also stopped reading: writes
+					// wait until a deadline ends them
+					r.lib.StallWrites(true)
+					r.writesStalled.Store(true)
+				}
 			}
 			r.cancelNow()
 		}
@@ -424,6 +431,12 @@ func (r *run) execute() {
 				break
 			}
 		}
+		if r.cancelIssued.Load() && r.lib.StalledNoDeadline() > 0 {
+			if why, at := r.permanentlyStalled(); why != "" {
+				r.stuck, r.stuckAt = why, at
+				break
+			}
+		}
 		if r.cancelIssued.Load() && r.lib.BlockedNoDeadline() > 0 {
 			if why, at := r.permanentlyBlocked(); why != "" {
 				r.stuck, r.stuckAt = why, at
@@ -456,6 +469,30 @@ func (r *run) execute() {
 	case <-done:
 	case <-time.After(2 * time.Second):
 	}
+}
+
+// permanentlyStalled is permanentlyBlocked for a write: the peer has stopped
+// reading (StallWrites), the write began to wait with no deadline armed, the
+// context watcher has finished, and no goroutine of the run is about to set a
+// deadline: sampled three times.
+func (r *run) permanentlyStalled() (why, at string) {
+	for s := 0; s < 3; s++ {
+		gs := goroutines()
+		ws := watcherState(gs)
+		if !(ws == "gone" || parked(ws)) || r.lib.StalledNoDeadline() == 0 {
+			return "", ""
+		}
+		for _, g := range gs {
+			if strings.Contains(g.text, "bufconn.(*Conn).Write") {
+				at = g.text
+			}
+		}
+		why = "constructor parked in a transport write with no deadline armed; context watcher " + ws + "; the peer has stopped reading"
+		if s < 2 {
+			time.Sleep(2 * time.Millisecond)
+		}
+	}
+	return why, at
 }
 
 // permanentlyBlocked applies the stall rule to the transport: the constructor
@@ -855,6 +892,9 @@ func one(c *core.Case, h *handshake, f fault) {
 	if cancelKind {
 		if r.cancelCalled.Load() {
 			c.Count("cancellations_issued", 1)
+			if r.writesStalled.Load() {
+				c.Count("cancellations_against_a_peer_that_stopped_reading", 1)
+			}
 			r1, _ := r.lib.DeadlineSets()
 			if r1 > r.setsBefore {
 				c.Count("cancellations_that_reached_the_deadlines", 1)
@@ -983,7 +1023,7 @@ func Prop() *core.Prop {
 	return &core.Prop{
 		ID:    "C04",
 		Level: core.FaultEnumeration,
-		Rule:  "for each handshake (plain c2s initiator, SASL PLAIN + bind on a Secure connection, WebSocket framing, component handshake, handshakes with a failing voluntary / mandatory custom feature (failing in Negotiate), receiver handshakes in which the first / middle / last feature's List callback fails before or after writing part of its element, initiator handshakes in which the first / middle / last advertised feature's Parse callback fails before or after consuming its element (TCP and WebSocket framing); initiator and receiver where the library supports the role; thorough adds STARTTLS+SASL+bind over real crypto/tls) a golden run is recorded on a bufconn connection and every fault point is replayed: peer stream ends after k bytes (all k < R), write side breaks after k bytes (all k < W), k-th Read fails, k-th Write fails, context cancelled just before the k-th connection operation against a silent and against a live peer, context cancelled while the k-th blocking read is parked. Case index = (handshake, fault kind, k) with fixed per-handshake bounds checked against the golden run; indexes beyond the golden run re-run the handshake fault-free. distinct = fault points executed.",
+		Rule:  "for each handshake (plain c2s initiator, SASL PLAIN + bind on a Secure connection, WebSocket framing, component handshake, handshakes with a failing voluntary / mandatory custom feature (failing in Negotiate), receiver handshakes in which the first / middle / last feature's List callback fails before or after writing part of its element, initiator handshakes in which the first / middle / last advertised feature's Parse callback fails before or after consuming its element (TCP and WebSocket framing); initiator and receiver where the library supports the role; thorough adds STARTTLS+SASL+bind over real crypto/tls) a golden run is recorded on a bufconn connection and every fault point is replayed: peer stream ends after k bytes (all k < R), write side breaks after k bytes (all k < W), k-th Read fails, k-th Write fails, context cancelled just before the k-th connection operation against a silent and against a live peer, context cancelled while the k-th blocking read is parked. Every other cancellation against a silent peer also stops the peer from reading (writes wait until a deadline ends them); a constructor parked in such a write with no deadline armed after the context watcher has finished outlives the cancellation. Two handshakes (tee-saslbind-*) run SASL + bind with StreamConfig.TeeIn/TeeOut set, so that the session reads and writes through the wrapper the library puts around the transport. Case index = (handshake, fault kind, k) with fixed per-handshake bounds checked against the golden run; indexes beyond the golden run re-run the handshake fault-free. distinct = fault points executed.",
 		Assumptions: []string{
 			"a scripted peer that is asked for input before it has received a complete request ends its stream (in a single-threaded negotiation nothing more can arrive; a real peer would time out and hang up)",
 			"'outlives the cancellation' is decided logically: cancellation issued, the library's context-watcher goroutine finished, the constructor parked in a bufconn read with no deadline armed and a silent peer (sampled three times) — never by a timeout",
@@ -1000,7 +1040,7 @@ func Prop() *core.Prop {
 		Run:        runCase,
 		Exhaustive: func(string) bool { return true },
 		Require: []string{"golden_ok", "ws_entry_point_complete_handshakes", "ws_entry_point_failures_reported", "golden_within_bounds", "fault_runs:eof", "fault_runs:wrbreak", "fault_runs:rdfail", "fault_runs:wrfail",
-			"fault_runs:cancel-silent", "fault_runs:cancel-live", "fault_runs:cancel-blocked", "fault_runs:wrlost", "write_lost:last_write_of_handshake", "fault_runs:cancel-nodl", "fault_runs:precancel", "fault_runs:rdtimeout", "fault_runs:wrtimeout", "parse_errors_of_unusable_features", "cancellations_without_deadlines", "sasl_response_writes_lost", "refusal_shapes_failed_closed", "header_refusals_failed_closed", "golden_runs_that_consumed_the_whole_script", "voluntary_restart_handshakes", "cancellations_issued", "cancellations_that_reached_the_deadlines",
+			"fault_runs:cancel-silent", "fault_runs:cancel-live", "fault_runs:cancel-blocked", "fault_runs:wrlost", "write_lost:last_write_of_handshake", "fault_runs:cancel-nodl", "fault_runs:precancel", "fault_runs:rdtimeout", "fault_runs:wrtimeout", "parse_errors_of_unusable_features", "cancellations_without_deadlines", "sasl_response_writes_lost", "refusal_shapes_failed_closed", "header_refusals_failed_closed", "golden_runs_that_consumed_the_whole_script", "voluntary_restart_handshakes", "cancellations_issued", "cancellations_that_reached_the_deadlines", "cancellations_against_a_peer_that_stopped_reading",
 			"step_errors_logged", "step_errors_logged:negotiate", "step_errors_logged:list", "step_errors_logged:parse", "failed_steps_with_mask", "failed_closed"},
 		Witnesses: map[string]func(*core.Case){
 			"swallow:voluntary:negotiate":           witness("volfail-init", "golden", 0),
